@@ -28,6 +28,7 @@ def run(prog, report, tier):
     panels.check_even(prog, report)
     panels.check_integrate(prog, report, rules=('apex', 'precond'))
     kernels.check_difference_only(prog, report)
+    panels.check_exact_splitter(prog, report)
     run_tasks(report, [(kernels.cert_K2_fourterm, (prog.repo, )),
                        (kernels.cert_fourterm_exact, (prog.repo, ))])
     report.not_decided.append(
